@@ -206,6 +206,49 @@ Theorem clone_keeps_original :
 Proof. exact clone_model_spec. Qed.
 Print Assumptions clone_keeps_original.
 
+(* No class-level state.  A cell owned by a class or a module of suds is
+   shared by EVERY client in the process.  The only such cell an invocation
+   writes is an entry of sudsobject.Factory.cache, a declared value-idempotent
+   memo cell; in particular no class attribute, no entry of a class-level
+   dictionary (header templates, registries), no module global.  The harness
+   classifies every MEASURED write by its owner (class / module / Binding /
+   client / schema object): an observed LClassAttr or LBinding write is outside
+   declared_W and fails fp_agrees and fp_spec_ok. *)
+Theorem no_class_level_writes :
+  forall k l, call_wf k = true ->
+    fW (fp_of_code (call_code k)) l = true -> class_owned l = true ->
+    (exists key, l = LFactory key)
+    /\ (forall mv, memo_of mv l <> None)
+    /\ (forall c kk a, declared_W c (LClassAttr kk a) = false).
+Proof.
+  intros k l Wf H C. destruct (no_class_level_writes_l k l Wf H C) as [key ->].
+  split; [exists key; reflexivity|]. split; [intro mv; discriminate|reflexivity].
+Qed.
+Print Assumptions no_class_level_writes.
+
+(* No per-binding state.  Binding objects are shared by all methods of a
+   service (wsdl.py: Definitions.add_methods) and by all threads; the
+   marshaller, unmarshaller, MultiRef resolver and SOAP client objects are
+   created per call.  On the program text: an invocation neither writes nor
+   reads any cell of a Binding, and such a write is never inside declared_W. *)
+Theorem binding_cells_untouched :
+  forall k l, call_wf k = true ->
+    fW (fp_of_code (call_code k)) l = true \/ fR (fp_of_code (call_code k)) l = true ->
+    binding_owned l = false /\ (forall c b a, declared_W c (LBinding b a) = false).
+Proof.
+  intros k l Wf H. split; [apply (no_binding_cell_l k l Wf H)|reflexivity].
+Qed.
+Print Assumptions binding_cells_untouched.
+
+(* The labelled plans the harness derives from real interleavings (thread i
+   runs up to the label where the real thread was suspended) are schedules of
+   the semantics above: what sc_agrees executes is cexec of some schedule, so
+   calls_noninterference speaks about it. *)
+Theorem labelled_plan_is_schedule :
+  forall mv calls plan c, exists sched, run_plan mv calls plan c = cexec mv sched c.
+Proof. exact run_plan_is_schedule_l. Qed.
+Print Assumptions labelled_plan_is_schedule.
+
 (* "A clone can always be made": while copy.deepcopy rebuilds a link Endpoint
    (no 'target' yet) every lookup that reaches Endpoint.__getattr__ -- any
    name, any recursion limit >= 2 -- ends in AttributeError, never in
